@@ -261,10 +261,24 @@ StylesheetRoot::process(
 
     const XPathExecutionContext::CurrentNodePushAndPop  theCurrentNodePushAndPop(executionContext, sourceTree);
 
-    // Output the action of the found root rule.  All processing
-    // occurs from here.
-    
-    rootRule->execute(executionContext);
+    // XSLT 1.0 section 5.1: the initial current node list consists of just the
+    // root node, so position() and last() are 1 in the rule that processes it.
+    typedef XPathExecutionContext::BorrowReturnMutableNodeRefList   BorrowReturnMutableNodeRefList;
+    typedef XPathExecutionContext::ContextNodeListPushAndPop        ContextNodeListPushAndPop;
+
+    BorrowReturnMutableNodeRefList  theRootNodeList(executionContext);
+
+    theRootNodeList->addNode(sourceTree);
+
+    {
+        const ContextNodeListPushAndPop     theContextNodeListPushAndPop(
+                    executionContext,
+                    *theRootNodeList);
+
+        // Output the action of the found root rule.  All processing
+        // occurs from here.
+        rootRule->execute(executionContext);
+    }
 
     // At this point, anything transient during the tranformation
     // may have been deleted, so we may not refer to anything the
